@@ -2,7 +2,7 @@
 # tools/seeded.sh <ID> [name]   confirm a seeded change produced in /tmp/wt-<ID> (deliverables in /tmp/seeded-out/<ID>),
 # run the checks against it, and file it under /verif/seeded/<name>/.  /repo is restored afterwards.
 set -u
-ID=$1; NAME=${2:-$ID}; WT=/tmp/wt-$ID; OUT=/tmp/seeded-out/$ID; DEST=/verif/seeded/$NAME
+ID=$1; NAME=${2:-$ID}; WT=${WT:-/tmp/wt-$ID}; OUT=${OUT:-/tmp/seeded-out/$ID}; DEST=/verif/seeded/$NAME
 export CARGO_NET_OFFLINE=true CARGO_TARGET_DIR=$WT/target
 [ -f $OUT/patch.diff ] || { echo "no patch in $OUT"; exit 2; }
 CRATE=$(grep -o "\-p [a-z0-9-]*" $OUT/seeded_demo.rs | head -1 | cut -d' ' -f2); CRATE=${CRATE:-deb822-lossless}
